@@ -16,7 +16,7 @@ theorem read_spec (s : Src) (n : Nat) (h : s.noMatching) (hw : s.wf) :
     (s.read n).1.1 ++ (s.read n).2.logical = s.logical ∧ (s.read n).1.1.length ≤ n ∧
     (s.read n).2.noMatching ∧ (s.read n).2.wf := by
   induction s generalizing n with
-  | raw cs =>
+  | raw cs l =>
     cases cs with
     | nil => simp [Src.read, Src.logical, Src.noMatching, Src.wf]
     | cons c cs =>
@@ -149,7 +149,10 @@ theorem prefetch_logical (s s' : Src) (h : s.noMatching) (hw : s.wf) (hp : s.pre
     · have hr := read_spec inner Gen.layer4_prefetchChunkSize h.2 hw.2
       generalize inner.read Gen.layer4_prefetchChunkSize = q at hp hr
       obtain ⟨⟨d, e⟩, inner'⟩ := q
-      cases e <;> simp at hp
+      simp only at hp
+      split at hp
+      · simp at hp
+      injection hp with hp
       subst hp
       refine ⟨?_, ⟨h.1, hr.2.2.1⟩, ⟨?_, hr.2.2.2⟩, ?_⟩
       · simp only [Src.logical]
@@ -158,7 +161,7 @@ theorem prefetch_logical (s s' : Src) (h : s.noMatching) (hw : s.wf) (hp : s.pre
       · simp; have := hw.1; omega
       · simp [Src.bufLen]; exact hr.2.1
     · simp at hp
-  | raw _ => simp [Src.prefetch] at hp
+  | raw _ _ => simp [Src.prefetch] at hp
   | bufio _ _ _ => simp [Src.prefetch] at hp
   | limit _ _ => simp [Src.prefetch] at hp
   | tee _ _ => simp [Src.prefetch] at hp
@@ -184,7 +187,7 @@ theorem wrap_logical (s : Src) (w : Src → Src) (hw : Transparent w) (hs : s.wf
     · rename_i hd
       have : buf.drop off = [] := List.drop_eq_nil_of_le (by omega)
       simp [Src.logical, (hw _).1, this]
-  | raw cs => simp [Src.wrap, Src.logical, (hw _).1]
+  | raw cs l => simp [Src.wrap, Src.logical, (hw _).1]
   | bufio p sz i => simp [Src.wrap, Src.logical, (hw _).1]
   | limit b i => simp [Src.wrap, Src.logical, (hw _).1]
   | tee l i => simp [Src.wrap, Src.logical, (hw _).1]
